@@ -14,14 +14,16 @@
 //                                FileBasedTestbenchRecorder from a simulation process that applies
 //                                the stimuli of trace 0 and reads every output pin each cycle
 //   <outdir>/<id>.meta           the `meta` line of the half-period traces (always written)
-//   <outdir>/<id>.tbtrace        what that simulation process itself read (cross-check)
+//   <outdir>/<id>.tbtrace        per SET/CHECK round of that simulation process: exact simulator time `t=` and time of the next simulator
+//                                event `next=` (fs, num/den) and the values it read; the k-th CHECK group of testbench.testvectors must lie,
+//                                by its accumulated ADV time, in [t - 1 ps, next]  (time base of the recorder does not drift)
 //   <outdir>/<id>.htrace         HALF-PERIOD traces (own runner below): inputs change and outputs are sampled at T/4 + k*T/2,
 //                                i.e. between every two clock edges, so that the edge a register is clocked on is observable;
 //                                events carry the exported port names (`E`/`e` clock pin rising/falling, `R1@rst`/`R0@rst` level of
 //                                reset pin `rst`); first line after `trace`: `meta classic=0|1 clkport=<name> edges=<R|F|B...>`
 //                                (classic = single clock pin, rising edge only, ONE reset kind/polarity/pin for all clocked nodes: what the certificate checker's
 //                                circuit model covers).  The recorded test vectors use the half-period stimulus 0 as well.
-// design-program extensions:  clockcfg ..  |  rootclock NAME div=N [name=X] ...  (second ROOT clock, own pin, unnamed = "sysclk" again)
+// design-program extensions:  clockcfg <sync|async|none> <high|low> [falling] [hz=<f>]  |  longrun N [tight]  |  rootclock NAME div=N [name=X] ...  (second ROOT clock, own pin, unnamed = "sysclk" again)
 //                             |  clockdef NAME [from=CLK] [mult=N|div=N (own pin, keeps the parent's name)] [name=X] [rising|falling|both] [sync|async|none] [high|low] [rst RESETNAME]
 //                             (a clock derived from the design clock on the SAME clock pin)  |  clk NAME ... endclk (ClockScope)
 // A design that cannot be built/exported gets "SKIP <id> <reason>" in .net/.trace.
@@ -250,7 +252,6 @@ int main(int argc, char **argv) {
 	auto programs = nd::readPrograms(pin);
 	uint64_t seed = vh::envSeed();
 	size_t done = 0;
-	const hlim::ClockRational period(1, 100'000'000);
 	for (auto &prog : programs) {
 		std::string base = outdir + "/" + prog.id;
 		std::filesystem::remove_all(base);
@@ -263,14 +264,22 @@ int main(int argc, char **argv) {
 			for (auto &st : prog.stmts) if (st[0] == "clockcfg") {
 				cfg.resetType = st[1] == "async" ? ClockConfig::ResetType::ASYNCHRONOUS : st[1] == "none" ? ClockConfig::ResetType::NONE : ClockConfig::ResetType::SYNCHRONOUS;
 				if (st.size() > 2) cfg.resetActive = st[2] == "low" ? ClockConfig::ResetActive::LOW : ClockConfig::ResetActive::HIGH;
-				if (st.size() > 3 && st[3] == "falling") cfg.triggerEvent = ClockConfig::TriggerEvent::FALLING;
+				for (size_t i = 3; i < st.size(); i++) {
+					if (st[i] == "falling") cfg.triggerEvent = ClockConfig::TriggerEvent::FALLING;
+					else if (st[i].rfind("hz=", 0) == 0) cfg.absoluteFrequency = hlim::ClockRational(std::stoull(st[i].substr(3)));   // e.g. hz=300000000: period not a whole number of ps
+				}
 			}
+			// long recording for the exporter's test-bench recorder:  longrun N [tight]  (N clock cycles, one SET/CHECK round per cycle
+			// shortly after the rising edge; `tight`: an extra wake-up T/64 later makes the recorder's flush interval short)
+			size_t longrun = 0; bool tight = false;
+			for (auto &st : prog.stmts) if (st[0] == "longrun") { longrun = std::stoull(st[1]); tight = st.size() > 2 && st[2] == "tight"; }
+			const hlim::ClockRational period = hlim::ClockRational(1) / *cfg.absoluteFrequency;
 			Clock clock(cfg);
 			ClockScope cs(clock);
 			Interp2 in;
 			in.mainClock = &clock;
 			nd::Program p2 = prog;
-			p2.stmts.erase(std::remove_if(p2.stmts.begin(), p2.stmts.end(), [](auto &s){ return s[0] == "clockcfg"; }), p2.stmts.end());
+			p2.stmts.erase(std::remove_if(p2.stmts.begin(), p2.stmts.end(), [](auto &s){ return s[0] == "clockcfg" || s[0] == "longrun"; }), p2.stmts.end());
 			in.run(p2);
 			in.clockStack.clear();
 			if (in.dropAll) { in.b.vars.clear(); }
@@ -343,10 +352,20 @@ int main(int argc, char **argv) {
 				}
 
 				const bool tvHalf = !hstims.empty();
-				const hlim::ClockRational tvStep = tvHalf ? step : period;
-				const hlim::ClockRational tvStart = tvHalf ? step / 2ull : period / 4ull;
-				if (!stims.empty() || tvHalf) {
-					const auto &stim = tvHalf ? hstims[0] : stims[0];
+				const bool tvLong = longrun > 0 && mode != "replay";
+				const hlim::ClockRational tvStep = tvLong ? period : tvHalf ? step : period;
+				const hlim::ClockRational tvStart = tvLong ? period / 64ull : tvHalf ? step / 2ull : period / 4ull;
+				// time from a SET/CHECK round to the next simulator event (clock edge or wake-up of this process): the recorder spreads
+				// the round's records over exactly that interval
+				const hlim::ClockRational tvGap = tvLong ? (tight ? period / 64ull : period / 2ull - period / 64ull) : tvHalf ? step / 2ull : period / 4ull;
+				std::vector<std::vector<std::string>> longStim;
+				if (tvLong) {
+					vh::Rng rng(seed * 9000011ull + std::hash<std::string>{}(prog.id) * 41ull);
+					longStim.resize(longrun);
+					for (auto &cyc : longStim) for (auto *p : pins.ins) cyc.push_back(randBits(rng, p->getConnectionType().width, 0));
+				}
+				if (!stims.empty() || tvHalf || tvLong) {
+					const auto &stim = tvLong ? longStim : tvHalf ? hstims[0] : stims[0];
 					auto *simp = &sim;
 					auto *tb = &tbtrace;
 					sim.addSimulationProcess([=, &stim]() -> SimProcess {
@@ -355,14 +374,17 @@ int main(int argc, char **argv) {
 							for (size_t i = 0; i < pins.ins.size(); i++)
 								setPin(*simp, pins.ins[i], i < stim[cyc].size() ? stim[cyc][i] : std::string());
 							co_await WaitFor(Seconds{0});
-							*tb << "cy " << cyc << " out";
+							// exact simulator time of this round and of the next simulator event, in fs (num/den), for the time-base check
+							hlim::ClockRational now = (tvStart + tvStep * (uint64_t)cyc) * 1'000'000'000'000'000ull, nxt = now + tvGap * 1'000'000'000'000'000ull;
+							*tb << "cy " << cyc << " t=" << now.numerator() << "/" << now.denominator() << " next=" << nxt.numerator() << "/" << nxt.denominator() << " out";
 							for (auto *p : pins.outs) {
 								auto drv = p->getDriver(0);
 								if (drv.node == nullptr || p->getConnectionType().width == 0) { *tb << " e"; continue; }
 								*tb << " " << nd::bitsOrE(simp->simProcGetValueOfOutput(drv));
 							}
 							*tb << "\n";
-							co_await WaitFor(tvStep);
+							if (tvLong && tight) { co_await WaitFor(tvGap); co_await WaitFor(tvStep - tvGap); }
+							else co_await WaitFor(tvStep);
 						}
 					});
 					sim.compileProgram(design.getCircuit());
